@@ -544,6 +544,67 @@ fn f9() -> Vec<Case> {
     out
 }
 
+/// F10: closures made by code that runs after a loop exit has been decided.  A loop body declares a
+/// local, then a try statement; the try body (or the catch block) leaves the iteration with continue or
+/// break, or not at all; the finally block (or the catch block) makes a closure over the body's local,
+/// over a local of its own and over the loop variable.  Every iteration has variables of its own: the
+/// closures of different iterations never share one, and what is declared after the loop does not show
+/// through them.
+fn f10() -> Vec<Case> {
+    let mut out = Vec::new();
+    let keep = |e: Expr| expr_stmt(invoke(var("fs"), "push", vec![e]));
+    for for_loop in [false, true] {
+        for exit in 0..3 {
+            for form in 0..4 {
+                for in_function in [false, true] {
+                    let leave: Vec<Stmt> = match exit {
+                        0 => vec![st(StmtKind::Continue)],
+                        1 => vec![st(StmtKind::Break)],
+                        _ => vec![pr("no exit", var("i"))],
+                    };
+                    let early = |then: Vec<Stmt>| st(StmtKind::If(bin(BinOp::Lt, var("i"), num(2.0)), then, None));
+                    let in_finally = vec![keep(lambda_expr(&[], bin(BinOp::Add, s("finally sees x="), invoke(var("String"), "from", vec![var("x")])))), var_stmt("fin", bin(BinOp::Add, var("x"), num(1.0))), keep(lambda_expr(&[], bin(BinOp::Add, s("finally's own fin="), invoke(var("String"), "from", vec![var("fin")])))), keep(lambda_expr(&[], bin(BinOp::Add, s("finally sees i="), invoke(var("String"), "from", vec![var("i")]))))];
+                    let in_catch = vec![keep(lambda_expr(&[], bin(BinOp::Add, s("catch sees x="), invoke(var("String"), "from", vec![var("x")])))), var_stmt("cat", bin(BinOp::Add, var("x"), num(2.0))), keep(lambda_expr(&[], bin(BinOp::Add, s("catch's own cat="), invoke(var("String"), "from", vec![var("cat")]))))];
+                    let try_stmt: Stmt = match form {
+                        // try { exit } finally { capture }
+                        0 => st(StmtKind::Try(vec![var_stmt("t", bin(BinOp::Add, var("x"), num(3.0))), keep(lambda_expr(&[], bin(BinOp::Add, s("try's own t="), invoke(var("String"), "from", vec![var("t")])))), early(leave.clone()), pr("rest of try", var("i"))], None, Some(in_finally.clone()))),
+                        // try { throw } catch { capture; exit } finally { capture }
+                        1 => st(StmtKind::Try(vec![st(StmtKind::Throw(s("thrown in the body")))], Some(("e".into(), { let mut c = in_catch.clone(); c.push(early(leave.clone())); c.push(pr("rest of catch", var("i"))); c })), Some(in_finally.clone()))),
+                        // try { throw } catch { capture; exit }
+                        2 => st(StmtKind::Try(vec![st(StmtKind::Throw(s("thrown in the body")))], Some(("e".into(), { let mut c = in_catch.clone(); c.push(early(leave.clone())); c.push(pr("rest of catch", var("i"))); c })), None)),
+                        // two nested try statements, the exit in the inner one, captures in both finally blocks
+                        _ => st(StmtKind::Try(vec![st(StmtKind::Try(vec![early(leave.clone()), pr("rest of inner try", var("i"))], None, Some(vec![keep(lambda_expr(&[], bin(BinOp::Add, s("inner finally sees x="), invoke(var("String"), "from", vec![var("x")]))))])))], None, Some(in_finally.clone()))),
+                    };
+                    let body_core = vec![var_stmt("x", bin(BinOp::Mul, var("i"), num(10.0))), try_stmt, pr("after try", var("x"))];
+                    let the_loop: Stmt = if for_loop {
+                        st(StmtKind::For("i".into(), bin(BinOp::Range, num(0.0), num(3.0)), body_core))
+                    } else {
+                        let mut b = vec![var_stmt("i", var("n")), expr_stmt(assign("n", bin(BinOp::Add, var("n"), num(1.0))))];
+                        b.extend(body_core);
+                        st(StmtKind::While(bin(BinOp::Lt, var("n"), num(3.0)), b))
+                    };
+                    let mut body = vec![var_stmt("n", num(0.0)), the_loop];
+                    // what is declared after the loop uses the slots the loop's variables had
+                    body.push(var_stmt("later1", s("declared after the loop 1")));
+                    body.push(var_stmt("later2", s("declared after the loop 2")));
+                    body.push(var_stmt("later3", s("declared after the loop 3")));
+                    body.push(st(StmtKind::For("f".into(), var("fs"), vec![print_stmt(call(var("f"), vec![]))])));
+                    body.push(print_stmt(Expr::VecLit(vec![var("later1"), var("later2"), var("later3")])));
+                    let mut main = vec![var_stmt("fs", Expr::VecLit(vec![]))];
+                    if in_function {
+                        main.push(fn_stmt(func("scope", &[], body)));
+                        main.push(expr_stmt(call(var("scope"), vec![])));
+                    } else {
+                        main.push(block(body));
+                    }
+                    out.push(wrapable("F10_closures_made_after_a_loop_exit_was_decided", main));
+                }
+            }
+        }
+    }
+    out
+}
+
 /// the three metamorphic wrappings: the same statements as a block, a function called once, a fiber
 /// called once (top-level declarations become locals / captured variables on another fiber's stack)
 fn wrappings(c: &Case) -> Vec<Case> {
@@ -566,6 +627,7 @@ pub fn cases_for_c04(thorough: bool) -> Vec<Case> {
     v.extend(f6());
     v.extend(f7(false).into_iter().enumerate().filter(|(i, _)| thorough || i % 8 == 0).map(|(_, c)| c));
     v.extend(f9());
+    v.extend(f10());
     v
 }
 
@@ -580,6 +642,7 @@ pub fn run(ctx: &Ctx) -> Report {
     base.extend(f6());
     base.extend(f7(thorough));
     base.extend(f9());
+    base.extend(f10());
     let mut all: Vec<Case> = Vec::new();
     for (i, c) in base.iter().enumerate() {
         // every program in the thorough tier, every fourth in the quick tier, is also run in its wrappings
@@ -599,7 +662,7 @@ pub fn run(ctx: &Ctx) -> Report {
     mcheck::fill_report(
         &mut report,
         &stats,
-        "F1: every combination of scope kind (block, function, lambda, method, while body, for body, try body) x exit (fall through, return, break, continue, throw) x two closures with every read/write action over two variables, created through 0-2 intermediate function levels, called inside the scope, escaped, and called in several orders after the scope has exited; F2: fresh variables per iteration/activation; F3: shadowing at depth 1-3 with a closure and a write at every level; F4: textual resolution and late-bound globals; F5: 1-3 closures over 1-3 shared variables, slot reuse; F6: captures of a try body left by exception or return; F7: capture order - three variables, up to three closures each with every ordered capture list (15 lists), so captures happen in every order relative to declaration order and to earlier captures; F9: locals captured before a try statement stay shared with their closures after an exception was raised inside it and handled in the same frame; F8: closures made straight after control came back from another module (exception caught, call returned, fiber finished, exception through a finally block). Each program also runs wrapped in a block, a function and a fiber. non-trivial = at least three observations printed.",
+        "F1: every combination of scope kind (block, function, lambda, method, while body, for body, try body) x exit (fall through, return, break, continue, throw) x two closures with every read/write action over two variables, created through 0-2 intermediate function levels, called inside the scope, escaped, and called in several orders after the scope has exited; F2: fresh variables per iteration/activation; F3: shadowing at depth 1-3 with a closure and a write at every level; F4: textual resolution and late-bound globals; F5: 1-3 closures over 1-3 shared variables, slot reuse; F6: captures of a try body left by exception or return; F7: capture order - three variables, up to three closures each with every ordered capture list (15 lists), so captures happen in every order relative to declaration order and to earlier captures; F10: closures made in finally / catch blocks over the loop body's locals when the iteration is left by continue / break from inside the try statement (every iteration has variables of its own); F9: locals captured before a try statement stay shared with their closures after an exception was raised inside it and handled in the same frame; F8: closures made straight after control came back from another module (exception caught, call returned, fiber finished, exception through a finally block). Each program also runs wrapped in a block, a function and a fiber. non-trivial = at least three observations printed.",
         json!({"closures": 2, "variables": 2, "intermediate_levels": if thorough { 3 } else { 2 }, "wrappings": 3}),
     );
     report.assumptions = vec!["M-eval's cell-based environments define the intended semantics (DESIGN.md Appendix A)".into()];
